@@ -545,6 +545,13 @@ func (e *effectEngine) of(fn *ssa.Function) []Effect {
 					if b.Name() == "copy" && len(in.Call.Args) == 2 {
 						target = in.Call.Args[0]
 					}
+					// append(x, y…) with spare capacity writes y into x's backing array, which every
+					// other slice of that array sees (nothing is written when no element is added)
+					// — counted in the module under analysis, and not for the grow-in-place idiom
+					// `x.f = append(x.f, y)`, whose store to x.f is an effect of its own
+					if b.Name() == "append" && len(in.Call.Args) == 2 && !appendsNothing(in.Call.Args[1]) && fn.Pkg != nil && e.c.isLLVM(fn.Pkg.Pkg.Path()) && !storedBack(in) {
+						target = in.Call.Args[0]
+					}
 				} else if callee := in.Call.StaticCallee(); callee != nil && callee.Pkg != nil && len(in.Call.Args) > 0 {
 					switch callee.Pkg.Pkg.Path() + "." + callee.Name() {
 					case "sort.Slice", "sort.SliceStable", "sort.Sort", "sort.Stable", "sort.Strings", "sort.Ints", "sort.Float64s",
@@ -639,6 +646,68 @@ func (e *effectEngine) of(fn *ssa.Function) []Effect {
 	}
 	e.perFn[fn] = out
 	return out
+}
+
+// storedBack: the result of append(x, …) is stored to the place x was loaded from (or x is a
+// local the result is assigned to: in SSA form, a phi / the same register chain).
+func storedBack(call *ssa.Call) bool {
+	x := call.Call.Args[0]
+	if sl, ok := x.(*ssa.Slice); ok {
+		x = sl.X
+	}
+	load, ok := x.(*ssa.UnOp)
+	if !ok || load.Op != token.MUL {
+		// a local accumulator: x is a phi / earlier append of the same chain and the result feeds it
+		if refs := call.Referrers(); refs != nil {
+			for _, r := range *refs {
+				if phi, ok := r.(*ssa.Phi); ok {
+					for _, ed := range phi.Edges {
+						if ed == call {
+							return true
+						}
+					}
+				}
+			}
+		}
+		if _, isCall := x.(*ssa.Call); isCall {
+			return false
+		}
+		return false
+	}
+	if refs := call.Referrers(); refs != nil {
+		for _, r := range *refs {
+			if st, ok := r.(*ssa.Store); ok && st.Val == call && sameAddr(st.Addr, load.X) {
+				return true
+			}
+		}
+	}
+	return false
+}
+
+func sameAddr(a, b ssa.Value) bool {
+	if a == b {
+		return true
+	}
+	fa, ok1 := a.(*ssa.FieldAddr)
+	fb, ok2 := b.(*ssa.FieldAddr)
+	if ok1 && ok2 && fa.Field == fb.Field {
+		return fa.X == fb.X || sameAddr(fa.X, fb.X) || sameLoad(fa.X, fb.X)
+	}
+	return false
+}
+
+func sameLoad(a, b ssa.Value) bool {
+	ua, ok1 := a.(*ssa.UnOp)
+	ub, ok2 := b.(*ssa.UnOp)
+	return ok1 && ok2 && ua.Op == token.MUL && ub.Op == token.MUL && (ua.X == ub.X || sameAddr(ua.X, ub.X))
+}
+
+// appendsNothing: the variadic argument of append is a nil / empty slice constant.
+func appendsNothing(v ssa.Value) bool {
+	if c, ok := v.(*ssa.Const); ok {
+		return c.Value == nil
+	}
+	return false
 }
 
 // ours reports whether the function belongs to the analysed module families.
